@@ -345,7 +345,7 @@ def main(tier=None, replay=None):
     _tlc_ok(ck, "SectionDetect." + ck.tier, r)
     recs = r.printed()
     header = next(x for x in recs if x.get("header"))
-    patterns = [x["g"] for x in recs if "g" in x]
+    patterns = sorted((x["g"] for x in recs if "g" in x), key=lambda g: (len(g), g))   # TLC's print order varies with workers
     if not patterns:
         raise MachineryError("TLC emitted no patterns")
     r2 = tlc(ALGO, CFG / "SectionDetect.asis.cfg", timeout=600)
@@ -361,6 +361,7 @@ def main(tier=None, replay=None):
             if "g" in x and tuple(x["g"]) not in seen:
                 seen.add(tuple(x["g"]))
                 long_patterns.append(x["g"])
+        long_patterns.sort(key=lambda g: (len(g), g))
         ck.part("SectionDetect.sim", long_patterns=len(long_patterns))
     dirs, refines, maxhits = header["dirs"], header["refines"], header["maxhits"]
     grids = sorted(header["grids"])
@@ -416,8 +417,8 @@ def main(tier=None, replay=None):
     rc = tlc(CURVES, CFG / f"SectionDetectCurves.{ck.tier}.cfg", timeout=1500)
     _tlc_ok(ck, "SectionDetectCurves." + ck.tier, rc)
     crecs = rc.printed()
-    curves = [x for x in crecs if "c" in x]
-    herm = [x for x in crecs if "herm" in x]
+    curves = sorted((x for x in crecs if "c" in x), key=lambda x: json.dumps([x["c"], x["h"], x["grid"]], sort_keys=True))
+    herm = sorted((x for x in crecs if "herm" in x), key=lambda x: json.dumps(x["herm"], sort_keys=True))
     if not curves or not herm:
         raise MachineryError("TLC emitted no curve / Hermite instances")
     n_curve_runs = 0
